@@ -562,8 +562,9 @@ static void run(void)
     tcp_based = strcmp(tp, "ux") != 0 && strcmp(tp, "uxf") != 0;
     tls_based = strcmp(tp, "tls") == 0 || strcmp(tp, "btls") == 0 || strcmp(tp, "utls") == 0 || strcmp(tp, "utlst") == 0;
     bool ctlflood = strcmp(scen, "ctlflood") == 0;
+    bool ctl3 = strcmp(scen, "ctl3") == 0;
     char ctldir[300] = "";
-    if (ctlflood) {
+    if (ctlflood || ctl3) {
 	const char *d = getenv("VERIF_RUN_DIR");
 	snprintf(ctldir, sizeof(ctldir), "%s/ctl-%d-%ld", d ? d : ".", getpid(), seq);
 	mkdir(ctldir, 0700);
@@ -583,7 +584,7 @@ static void run(void)
     static const char *skis[] = { "ski32", "ski0", "ski2000", "ski21" };
     const char *skid = skis[(seq >> 1) % 4];
     bool ski_on_server = badski && (seq & 1);
-    bool normal = strcmp(scen, "normal") == 0 || ctlflood || garbage2 || longidle || accfail, refused = strcmp(scen, "refused") == 0,
+    bool normal = strcmp(scen, "normal") == 0 || ctlflood || garbage2 || longidle || accfail || ctl3, refused = strcmp(scen, "refused") == 0,
 	 silent = strcmp(scen, "silent") == 0, release = strcmp(scen, "release") == 0,
 	 mute = strcmp(scen, "mute") == 0, garbage = strcmp(scen, "garbage") == 0, idle = strcmp(scen, "idle") == 0 || accblk;
     int up = 1;
@@ -682,7 +683,7 @@ static void run(void)
 	want_send[1] = 2;
 
     long t0 = now_ms();
-    int ctlfd = -1, ctlfds[4], nctl = 0, ctl_calls = 0;
+    int ctlfd = -1, ctlfds[16], nctl = 0, ctl_calls = 0;
     int quiet = 0, stuck = 0, turns = 0;
     int quiet_limit = release ? 200 : 80;	/* x 25 ms; "release" depends on the kernel's 1 s SYN retransmission */
     bool released = false, rclosed = false, rgarb = false;
@@ -930,6 +931,57 @@ static void run(void)
 	fprintf(out, "{\"x\":%ld,\"n\":%ld,\"op\":\"id\",\"e\":0,\"spin\":[%d,%d],\"ms\":%ld}\n", xid, stepno, spin[1], spin[2],
 		now_ms() - t0);
     }
+    /* ctl3: more control clients than a socket serves at a time (three per control socket, none of which ever sends a
+       request): the library accepts two of them over a bounded number of wake-ups (every fifth EAGAIN) and leaves the
+       third in the listen queue; after that the idle connection's descriptor must be quiet.  A spin = still readable
+       after 60 serviced wake-ups (xcm_receive says EAGAIN, xcm_finish says 0) */
+    if (ctl3 && so[1] && so[2] && !stuck && !term[1] && !term[2]) {
+	DIR *dd = opendir(ctldir);
+	struct dirent *de;
+	while (dd && (de = readdir(dd)) != NULL) {
+	    if (strncmp(de->d_name, "ctl-", 4) != 0)
+		continue;
+	    struct sockaddr_un ua = { .sun_family = AF_UNIX };
+	    snprintf(ua.sun_path, sizeof(ua.sun_path), "%s/%s", ctldir, de->d_name);
+	    for (int k = 0; k < 3 && nctl < 16; k++) {
+		int cf = socket(AF_UNIX, SOCK_SEQPACKET | SOCK_NONBLOCK, 0);
+		if (connect(cf, (struct sockaddr *)&ua, sizeof(ua)) == 0)
+		    ctlfds[nctl++] = cf;
+		else
+		    close(cf);
+	    }
+	}
+	if (dd)
+	    closedir(dd);
+	emit("env", 0, nctl, 0, 6, 0);
+	int spin[3] = { 0, 0, 0 };
+	for (int e = 1; e <= 2; e++) {
+	    do_await(e, XCM_SO_RECEIVABLE);
+	    cond[e] = XCM_SO_RECEIVABLE;
+	}
+	for (int e = 1; e <= 2; e++) {
+	    int i;
+	    for (i = 0; i < 60 && !term[e] && !eofs[e]; i++) {
+		if (!(poll1(xcm_fd(so[e]), POLLIN) > 0))
+		    break;
+		int r0 = rcvd[e];
+		do_receive(e);
+		if (rcvd[e] != r0 || term[e] || eofs[e])
+		    break;
+		CALL_BEGIN(e);
+		int frc = xcm_finish(so[e]);
+		int ferr = errno;
+		CALL_END();
+		emit("f", e, frc, frc < 0 ? ferr : 0, 0, shim_wait_seen());
+		if (frc != 0)
+		    break;
+	    }
+	    spin[e] = i >= 60 ? i : 0;
+	}
+	stepno++;
+	fprintf(out, "{\"x\":%ld,\"n\":%ld,\"op\":\"id\",\"e\":0,\"spin\":[%d,%d],\"ms\":%ld}\n", xid, stepno, spin[1], spin[2],
+		now_ms() - t0);
+    }
     /* garbage2: a second connection of this process is fed garbage instead of a TLS handshake; afterwards the healthy
        connection must still say EAGAIN when idle, deliver what is sent and finish cleanly */
     if (garbage2 && so[1] && so[2] && !stuck && !term[1] && !term[2]) {
@@ -1084,7 +1136,7 @@ static void run(void)
 	close_so(e);
     for (int i = 0; i < nctl; i++)
 	close(ctlfds[i]);
-    if (ctlflood)
+    if (ctlflood || ctl3)
 	rmdir(ctldir);
     cleanup();
 }
